@@ -7,12 +7,16 @@ package multiplex
 
 import (
 	"bytes"
+	"encoding/binary"
 	"fmt"
 	"io"
 	"math/rand/v2"
 	"reflect"
+	"sync"
+	"sync/atomic"
 	"testing"
 	"testing/synctest"
+	"time"
 	"unsafe"
 
 	vk "github.com/cbeuw/Cloak/internal/verifkit"
@@ -251,6 +255,11 @@ func TestVerif_C02(t *testing.T) {
 			default:
 				sz[i] = 1 + rng.IntN(3000)
 			}
+			if n <= 12 && rng.IntN(12) == 0 {
+				// everything the 20480-byte connection receive buffer can hold, not only what this
+				// implementation's own sender would put into one frame
+				sz[i] = 16000 + rng.IntN(4400)
+			}
 		}
 		return sz
 	}
@@ -304,6 +313,9 @@ func TestVerif_C02(t *testing.T) {
 			if k%13 == 0 {
 				n = 200
 			}
+			if k%7 == 3 {
+				n = 3 + rng.IntN(8) // small n: these get the very large payloads too
+			}
 			base := bases[rng.IntN(len(bases))]
 			if rng.IntN(4) == 0 {
 				base = ^uint64(0) - uint64(n) // highest usable numbers without wrapping
@@ -330,9 +342,106 @@ func TestVerif_C02(t *testing.T) {
 		}
 		runBlock(id, map[string]any{"block": b, "schedules": len(scheds)}, scheds)
 	}
+	// concurrent deliverers: consecutive frames are handed to Write by different goroutines at almost
+	// the same instant (what several connection read loops do); the reader must still see sequence order
+	for i := 0; i < r.Pick(8, 64); i++ {
+		id := fmt.Sprintf("concurrent-deliverers-%d", i)
+		if !r.Mine(id) {
+			continue
+		}
+		r.Case(id, nil)
+		workers := []int{2, 3, 4, 8}[i%4]
+		nframes := r.Pick(60000, 200000)
+		kind, detail := c02Concurrent(workers, nframes, i%2 == 0)
+		r.Count("evaluations", 1)
+		r.Count("concurrently_delivered_frames", int64(nframes))
+		r.Distinct("cases", vk.Hash64("conc", i))
+		if kind != "" {
+			r.Violation(id, "C02:"+kind, fmt.Sprintf("%s; %d goroutines delivering %d frames of one stream", detail, workers, nframes), nil)
+		} else {
+			r.Pass(id)
+		}
+	}
 	if basesSkipped {
 		r.Count("bases_skipped_field_absent", 1)
 	}
 	r.Distinct("cases", "exhaustive-part") // the enumerated schedules are counted in distinct_enumerated
 	r.Distinct("cases", "sampled-part")
 }
+
+// c02Concurrent lets several goroutines deliver the frames of one stream, each frame exactly once,
+// taking the next index from a shared counter (so neighbours race), while a reader drains.
+func c02Concurrent(workers, nframes int, closing bool) (kind, detail string) {
+	sb := NewStreamBuffer()
+	var next atomic.Int64
+	var wg sync.WaitGroup
+	var werr atomic.Value
+	closed := make(chan struct{})
+	var closeOnce sync.Once
+	for w := 0; w < workers; w++ {
+		wg.Add(1)
+		go func() {
+			defer wg.Done()
+			payload := make([]byte, 8)
+			for {
+				i := next.Add(1) - 1
+				if i >= int64(nframes) {
+					return
+				}
+				f := &Frame{StreamID: 1, Seq: uint64(i), Payload: payload}
+				binary.BigEndian.PutUint64(payload, uint64(i))
+				if closing && i == int64(nframes)-1 {
+					f.Closing = closingStream
+				}
+				toBeClosed, err := sb.Write(f)
+				if err != nil {
+					werr.Store(fmt.Sprintf("Write of frame %d failed: %v", i, err))
+					return
+				}
+				if toBeClosed {
+					closeOnce.Do(func() { sb.Close(); close(closed) })
+				}
+			}
+		}()
+	}
+	data := nframes
+	if closing {
+		data = nframes - 1
+	}
+	done := make(chan struct{})
+	go func() {
+		defer close(done)
+		buf := make([]byte, 8)
+		for i := 0; i < data; i++ {
+			if _, err := io.ReadFull(readerOf(sb), buf); err != nil {
+				kind, detail = "early-close", fmt.Sprintf("reader got %v after %d of %d frames although every lower-numbered frame was delivered", err, i, data)
+				return
+			}
+			if got := binary.BigEndian.Uint64(buf); got != uint64(i) {
+				kind, detail = "wrong-bytes", fmt.Sprintf("position %d of the stream carries the payload of frame %d: payloads were handed over out of sequence order", i, got)
+				return
+			}
+		}
+	}()
+	wg.Wait()
+	if e := werr.Load(); e != nil {
+		sb.Close()
+		<-done
+		return "write-error", e.(string)
+	}
+	select {
+	case <-done:
+	case <-time.After(120 * time.Second):
+		sb.Close()
+		<-done
+		if kind == "" {
+			kind, detail = "read-parked", "all frames were delivered but the reader did not get all payloads within two minutes"
+		}
+	}
+	return
+}
+
+type sbReader struct{ sb *streamBuffer }
+
+func (r sbReader) Read(p []byte) (int, error) { return r.sb.Read(p) }
+func readerOf(sb *streamBuffer) io.Reader     { return sbReader{sb} }
